@@ -14,7 +14,7 @@ vars == <<b, n>>
 
 \* (184 and 187: the last bytes of the code points next to the markers, U+2038 and U+203B -- a comparison that is too
 \*  generous about the third byte escapes those as well)
-E10 == {<<226>>, <<128>>, <<185>>, <<186>>, <<97>>, <<SP>>, <<NL>>, <<Q>>, StartM, EndM, RuneErrorBytes, <<194, 186>>, <<184>>, <<187>>}
+E10 == {<<226>>, <<128>>, <<185>>, <<186>>, <<97>>, <<SP>>, <<NL>>, <<Q>>, StartM, EndM, RuneErrorBytes, <<194, 186>>, <<184>>, <<187>>, <<13>>}      \* (13: carriage return -- a byte like any other, not part of a line break)
 E7  == {<<226>>, <<128>>, <<185>>, <<97>>, <<NL>>, StartM, EndM}
 
 Init == b = <<>> /\ n = 0
